@@ -127,6 +127,20 @@ func genHelpers(rng *rand.Rand, idx int, tier string) Case {
 		c["pattern"] = g.pick(append(append([]string{}, patPool...), badPatPool...))
 	case "UniqueItems":
 		c["data"] = g.goSlice(1)
+		if g.p(10) {
+			// pointers at different addresses to equal (or different) values: uniqueness is deep equality, not identity
+			a := g.goValue(0)
+			b := a
+			if g.p(40) {
+				b = g.goValue(0)
+			}
+			switch asStr(a["t"]) {
+			case "bool", "string", "int", "int8", "int16", "int32", "int64", "uint", "uint8", "uint16", "uint32", "uint64", "float32", "float64":
+				if asStr(b["t"]) == asStr(a["t"]) {
+					c["data"] = gv("[]interface", []interface{}{gv("ptr", a), gv("ptr", b)})
+				}
+			}
+		}
 	case "Enum", "EnumCase":
 		data := g.goValue(1)
 		enum := g.goSlice(1)
